@@ -30,7 +30,7 @@ ASSUMPTIONS = ['the lookup and graph clauses are pure functions of their input a
                'Splitter copies are shallow: only scalar header fields are required to be independent',
                'flow ids are non-negative']
 PROBES = ['sub_demux', 'sub_hub', 'sub_split', 'sub_fattree', 'empty_table', 'unknown_flow_to_default', 'unknown_flow_nowhere',
-          'end_device_hit', 'hub_through_wires', 'hub_add_endpoint', 'two_hubs', 'fattree_k2', 'fattree_k4', 'fattree_k6', 'fattree_tcp',
+          'end_device_hit', 'hub_through_wires', 'hub_add_endpoint', 'two_hubs', 'hub_nested_reply', 'fattree_decoy', 'fattree_k2', 'fattree_k4', 'fattree_k6', 'fattree_tcp',
           'fattree_many_to_one', 'server_WFQ', 'server_DRR', 'server_SP', 'server_VirtualClock', 'ack_class_delivered']
 
 
@@ -51,7 +51,7 @@ def gen(rng, tier):
         n = rng.randint(1, 5)
         return {'sub': 'hub', 'n': n, 'ports': [rng.random() < 0.5 for _ in range(n)] if rng.random() < 0.7 else None,
                 'delays': [rng.choice([0.5, 1, 2, 3]) for _ in range(n)], 'via_add': rng.random() < 0.4,
-                'second_hub': rng.random() < 0.5,
+                'second_hub': rng.random() < 0.5, 'responders': [rng.random() < 0.3 for _ in range(n)],
                 'sends': [[rng.choice([0, 0.5, 1, 2]), rng.randrange(n)] for _ in range(rng.randint(1, 6))]}
     if sub == 'split':
         return {'sub': 'split', 'n': rng.choice([2, 2, 3, 4]), 'use_n': rng.random() < 0.5,
@@ -60,7 +60,7 @@ def gen(rng, tier):
     nf = rng.randint(1, 12)
     return {'sub': 'fattree', 'k': k, 'nflows': nf, 'seed': rng.randrange(1 << 30), 'tcp': rng.random() < 0.4,
             'server': rng.choice(['WFQ', 'DRR', 'SP', 'VirtualClock']), 'cmap': rng.choice(['id', 'id', 'mod2', 'mod3', 'one']),
-            'npk': rng.randint(1, 6), 'burst': rng.random() < 0.6, 'rate': rng.choice([1 << 20, 1 << 24]), 'buffer': 1000}
+            'npk': rng.randint(1, 6), 'burst': rng.random() < 0.6, 'decoy': rng.random() < 0.3, 'rate': rng.choice([1 << 20, 1 << 24]), 'buffer': 1000}
 
 
 def valid(case):
@@ -150,20 +150,28 @@ def run_demux(w, case):
 # ------------------------------------------------------------------------------------------- hub
 
 class Endpoint:
-    def __init__(self, w, eid):
+    def __init__(self, w, eid, responder=False):
         self.w, self.element_id, self.out = w, eid, None
         self.got = []
+        self.responder = responder
+        self.replies = []
 
     def put(self, p):
         self.w.rec('SINK', self.element_id, self.w.label(p))
         self.got.append((self.w.env.now, p))
+        if self.responder and p.payload == 'req' and self.out is not None:
+            # answers from inside put(), through the same hub, in the same instant
+            r = Packet(self.w.env.now, 40, 7000 + len(self.replies), src=self.element_id, payload='reply')
+            self.replies.append((self.w.env.now, r))
+            self.out.put(r)
 
 
 def run_hub(w, case):
     viol, stats = [], {'sub_hub': 1}
     env = w.env
     n = case['n']
-    eps = [Endpoint(w, 'ep%d' % i) for i in range(n)]
+    resp = case.get('responders') or []
+    eps = [Endpoint(w, 'ep%d' % i, responder=(i < len(resp) and bool(resp[i]))) for i in range(n)]
     pspec = case.get('ports')
     delays = case.get('delays', [1] * n)
     ports = None
@@ -196,7 +204,7 @@ def run_hub(w, case):
     def sender(t, i, k):
         if t > 0:
             yield env.timeout(t)
-        p = Packet(env.now, 40, k, src=eps[i].element_id)
+        p = Packet(env.now, 40, k, src=eps[i].element_id, payload='req')
         sends.append((env.now, i, p))
         eps[i].out.put(p)
         if False:
@@ -223,6 +231,16 @@ def run_hub(w, case):
                 viol.append(('C18.2', 'endpoint %s received the packet sent by ep%d at t=%r at %r; %s gives %r' %
                              (e.element_id, i, t, arr[0], 'its port device (wire delay %r)' % delays[j % len(delays)]
                               if via is not None else 'a direct connection', want)))
+    # replies sent from inside put(): same rule, every endpoint but the replier, once
+    for j, e in enumerate(eps):
+        for t, rp in e.replies:
+            stats['hub_nested_reply'] = 1
+            for j2, e2 in enumerate(eps):
+                cnt = sum(1 for tt, q in e2.got if q is rp)
+                if j2 == j and cnt:
+                    viol.append(('C18.2', 'hub repeated the reply of %s back to %s itself' % (e.element_id, e.element_id)))
+                if j2 != j and cnt != 1:
+                    viol.append(('C18.2', 'endpoint %s received the reply of %s %d times' % (e2.element_id, e.element_id, cnt)))
     for o in others:
         if o.got:
             viol.append(('C18.2', 'endpoint %s of another hub received %d packet(s) sent on this hub' % (o.element_id, len(o.got))))
@@ -317,6 +335,12 @@ def run_fattree(w, case):
         if tcp:
             stats['fattree_tcp'] = 1
         ft.generate_fib(flows, tcp=tcp)
+        if case.get('decoy'):
+            # a second tree of the same size with its own flows, built and routed before the first one is used
+            ft2 = FatTree(k)
+            fl2 = ft2.generate_flows(case['nflows'] + 1)
+            ft2.generate_fib(fl2, tcp=tcp)
+            stats['fattree_decoy'] = 1
     finally:
         ft_mod.sample = saved
     for fid, fl in flows.items():
